@@ -83,7 +83,17 @@ func runEnv(b envBehaviour, rnd *rand.Rand) ([]Event, string) {
 	}
 	e := cl.Engines[b.Me]
 	cl.Rec.Add(Event{"ev": "init", "node": e.name, "me": b.Me, "h": 1})
-	if err := e.Start(); err != nil {
+	// a power loss may hit the very first actions of the engine (a proposer proposes from Start): a schedule that
+	// begins with a crash operation arms it BEFORE the engine starts
+	startArm, startMode := -1, ""
+	if len(b.Steps) > 0 && b.Steps[0].Op == "crash" && b.Steps[0].K < 1000 {
+		startArm, startMode = b.Steps[0].K, b.Steps[0].Mode
+		if startMode == "graceful" {
+			startMode = "torn"
+		}
+		b.Steps = b.Steps[1:]
+	}
+	if err := e.StartArmed(startArm); err != nil {
 		return cl.Rec.Events(), "start: " + err.Error()
 	}
 	cl.Rec.Quiesce(30*time.Millisecond, 600*time.Millisecond)
@@ -94,6 +104,17 @@ func runEnv(b envBehaviour, rnd *rand.Rand) ([]Event, string) {
 		return rnd.Intn(n)
 	}
 	pendingMode := ""
+	if startArm >= 0 {
+		// give the start-up actions (propose callback, own prevote) time to run into the armed power loss
+		dl := time.Now().Add(1500 * time.Millisecond)
+		for time.Now().Before(dl) && !e.PowerLost() {
+			time.Sleep(10 * time.Millisecond)
+		}
+		if err := e.Restart(startMode, pick); err != nil {
+			return cl.Rec.Events(), "restart: " + err.Error()
+		}
+		cl.Rec.Quiesce(30*time.Millisecond, 600*time.Millisecond)
+	}
 	others := []int{}
 	for i := 0; i < 4; i++ {
 		if i != b.Me {
